@@ -255,7 +255,7 @@ package hclsyntax
 //@ ensures clean(ret)
 
 // ---- walk completeness (unit U16, C07) ----
-// verif:unit U16 props=C07
+// verif:unit U16 props=C07,C10
 //
 // Variables() and the dynblock/hcldec variable walkers find references by walking the tree with
 // walkChildNodes. The ghost set 'walked' collects every node handed to the walk callback; 'scoped'
@@ -414,7 +414,7 @@ package hclsyntax
 //@ pure
 
 // ---- Variables() of every expression node is the walk-based search (unit U16c, C07) ----
-// verif:unit U16c props=C07
+// verif:unit U16c props=C07,C10
 // varsOf(e): the traversals the walk-based search reports for e (definition: the result of the
 // package function Variables). Every node type's Variables method returns exactly that for itself.
 // verif:specfunc varsOf(e Expression) []hcl.Traversal
